@@ -298,12 +298,13 @@ def _show(h):
 def scenarios(n, tier, seed, slice_k, shape_k=1):
     """(callees, arity, desc_order, [orders]) per model; quick: the arity and the callee order alternate with the shape
     index (shifted by the seed), a rotating 1/shape_k slice of the shapes and a rotating 1/slice_k slice of the distinct
-    orders of each is taken (which ones: by the seed); thorough: everything"""
+    orders of each is taken (which ones: by the seed); thorough: everything (5 cells: one variant per shape)"""
     for si, callees in enumerate(shapes(n)):
         if tier != "thorough" and shape_k > 1 and (si + seed) % shape_k:
             continue
         variants = [(a, d) for a in (0, 1) for d in (False, True)]
-        if tier != "thorough":
+        if tier != "thorough" or n >= 5:
+            # (thorough, 5 cells: every shape and every order, the variant alternating with the shape)
             variants = [variants[(si // max(shape_k, 1) + seed) % 4]]
         for arity, d in variants:
             orders = distinct_orders(callees, d)
